@@ -41,9 +41,10 @@ ASSUMPTIONS = [
     "cell coordinate (p-pmin)/cell, compared with the exact value at the exact centre within "
     "sum|w_k|*16*ulp(M_k)/cell_k: a shift of the evaluation point by >= 1e-6 cell is visible, float rounding of the "
     "centre is not",
-    "dict: 'first listed' is taken as mesh subregion order restricted to the subregions that have a key; where the "
-    "dict's own key order would give another answer, or an earlier subregion without key contains the cell, both "
-    "answers are accepted; incomplete dicts (uncovered cells, no default) are not judged",
+    "dict: 'first listed' is the order in which the MESH lists its subregions, restricted to the subregions that have a "
+    "key (the order of the keys inside the value dict must not matter: equal dicts are one specification); where an "
+    "earlier subregion WITHOUT key contains the cell, its successor's value and the default are both accepted; incomplete "
+    "dicts (uncovered cells, no default) are not judged",
     "source field: a target cell may take the value of ANY source cell whose closed cell contains the target centre "
     "(band: containment tolerance + 16 ulp); same dimension names on both meshes; a source that misses a target centre "
     "by >= half a cell must be refused",
@@ -492,9 +493,9 @@ def _build_dict(ctx, mesh, geo, layout, nvdim, dt, subkind, defkind, keys, order
         acc = []
         if keyed_inside:
             acc.append(sub_expected[keyed_inside[0]](idx))  # mesh order
-            alt = [nm for nm in dict_order if nm in keyed_inside]
-            if alt[0] != keyed_inside[0]:
-                acc.append(sub_expected[alt[0]](idx))  # the dict's own order: not excluded by the statement
+            # NOT accepted: the order in which the value dict happens to list its keys.  Two dicts that compare equal
+            # are the same specification and must give the same field; "first-listed subregion" refers to the
+            # subregions as the mesh lists them.
             if inside[0] not in keyed:
                 # an earlier-listed subregion without a value contains the cell: default is acceptable too
                 if dexp is not None:
